@@ -62,7 +62,10 @@ class Plane:
 
         if mask is None:
             mask = np.copy(self._amplitude)
-        
+        else:
+            # binarize a copy, not the caller's array
+            mask = np.array(mask)
+
         mask[mask != 0] = 1
         self._mask = mask
 
